@@ -152,6 +152,10 @@ def run(ctx):
     c01.g5(ctx, R)
     c01.g6(ctx, R)
     c03.g7(ctx, R)
+    c03.g9(ctx, R)
+    # "its required extension": the extension gates (E2-E7 of C07) decide whether a registered command's require is honoured
+    from .c07 import gates
+    gates(ctx, R)
     # printing of custom commands goes through the generic serializer (S1-S5 of C04); re-registration must not meet stale per-name state (H1 of C13)
     from .c04 import serializer_rules
     from .c13 import h1
